@@ -307,6 +307,104 @@ def _closure_py(frame, S, ws):
     return sorted(R)
 
 
+# ---------------------------------------------------------------------------
+# re-application: "for all already-present constants / accessible worlds where the rule re-applies"
+# ---------------------------------------------------------------------------
+
+def instances_part(ctx: Ctx, data):
+    """Implementation-side oracle for the re-applying rules (witness eachConst / eachWorld in the regenerated
+    table): a one-node probe tableau — with the constants / accessible worlds coming from the node's OWN sentence,
+    from other trunk nodes, in and out of alphabetical order — is run to the end; on every open branch that no limit
+    flag cut short, every constant (accessible world) on the branch must have received its instance of the node."""
+    from ..extract import probe as PR
+    from pytableaux.lang import Operated, Operator, Quantified, Predicate, Constant
+    from pytableaux.logics import registry
+    from pytableaux.proof import FlagNode, SentenceNode, AccessNode
+    R2 = Predicate(2, 0, 2)
+    CD = Constant(3, 0)
+    bodies = [('Fx', lambda x: PR.F1(x)), ('Rxa', lambda x: R2(x, PR.CA)), ('Rdx', lambda x: R2(CD, x)),
+              ('Fx|Ga', lambda x: Operated(Operator.Disjunction, (PR.F1(x), PR.G1(PR.CA))))]
+    contexts = [('none', []), ('Gb', [PR.G1(PR.CB)]), ('Gc,Ga', [PR.G1(PR.CC), PR.G1(PR.CA)])]
+    combos = [(b, c) for b in bodies for c in contexts]
+    if not ctx.thorough:
+        combos = [combos[i] for i in (0, 1, 3, 5, 6, 11)]
+    nchecked = 0
+    hist = {}
+    for lg in sorted(data):
+        d = data[lg]
+        if 'fatal' in d:
+            continue
+        logic = registry(lg)
+        for k, r in d['rules']:
+            (kind, sym), negated, des = k
+            if r['witness'] == 'eachConst' and kind == 'quant':
+                q = dict(PR.QUANTS)[sym]
+                for (bn, body), (cn, context) in combos:
+                    inner = Quantified(q, PR.X, body(PR.X))
+                    try:
+                        tab, node = PR.make_probe(logic, inner, negated, des, 'quant', context=list(context))
+                    except AssertionError:
+                        continue
+                    tab.opts['max_steps'] = 400
+                    tab.build()
+                    nchecked += 1
+                    hist[f'quant/{bn}/{cn}'] = hist.get(f'quant/{bn}/{cn}', 0) + 1
+                    ctx.count(f'inst:{lg}:{r["name"]}:{bn}:{cn}')
+                    if tab.premature:
+                        continue
+                    for b in tab.open:
+                        if any(isinstance(n, FlagNode) for n in b):
+                            continue
+                        sents = [n['sentence'] for n in b if isinstance(n, SentenceNode) and n is not node]
+                        missing = []
+                        for c in sorted(b.constants):
+                            inst = c >> inner
+                            if not any(inst == s_ or inst in PR._subsentences(s_) for s_ in sents):
+                                missing.append(str(c))
+                        if missing:
+                            from pytableaux.lang import LexWriter
+                            lw = LexWriter('polish')
+                            ctx.fail(f'C04:reapply:{lg}:{r["name"]}:constant-instance-missing',
+                                     f'{lg}: {r["name"]} on the one-node probe {lw(node["sentence"])} (context {cn}) finished with an open, '
+                                     f'limit-free branch on which the constants {missing} never received their instance of the node',
+                                     dict(logic=lg, rule=r['name'], node=lw(node['sentence']), designated=des,
+                                          context=[lw(x) for x in context], branch=[str(dict(n)) for n in b][:12]))
+                            break
+            elif r['witness'] == 'eachWorld' and kind == 'op1':
+                o = dict(PR.OP1)[sym]
+                inner = Operated(o, (PR.A,))
+                for cn, context in (('1 successor', [Operator.Possibility(PR.Z3)]),
+                                    ('2 successors', [Operator.Possibility(PR.Z3), Operator.Possibility(PR.Z1)])):
+                    try:
+                        tab, node = PR.make_probe(logic, inner, negated, des, 'modal', context=list(context))
+                    except AssertionError:
+                        continue
+                    tab.opts['max_steps'] = 400
+                    tab.build()
+                    nchecked += 1
+                    hist[f'modal/{cn}'] = hist.get(f'modal/{cn}', 0) + 1
+                    ctx.count(f'inst:{lg}:{r["name"]}:{cn}')
+                    if tab.premature:
+                        continue
+                    w0 = node.get('world')
+                    for b in tab.open:
+                        if any(isinstance(n, FlagNode) for n in b):
+                            continue
+                        succ = sorted({n['world2'] for n in b if isinstance(n, AccessNode) and n['world1'] == w0})
+                        missing = []
+                        for w in succ:
+                            at = [n['sentence'] for n in b if isinstance(n, SentenceNode) and n.get('world') == w and n is not node]
+                            if not any(PR.A == s_ or PR.A in PR._subsentences(s_) for s_ in at):
+                                missing.append(w)
+                        if missing:
+                            ctx.fail(f'C04:reapply:{lg}:{r["name"]}:world-instance-missing',
+                                     f'{lg}: {r["name"]} on a one-node probe with {cn} finished with an open, limit-free branch on which '
+                                     f'the accessible worlds {missing} never received their instance of the node',
+                                     dict(logic=lg, rule=r['name'], designated=des, context=cn, branch=[str(dict(n)) for n in b][:14]))
+                            break
+    ctx.add_cov(reapplication_probes=nchecked, reapplication_probe_histogram=hist)
+
+
 def run(ctx: Ctx):
     data = logicobl.regenerate()
     cats = dict(rules_exact=h_rules_exact, rules_total=h_simple('rules_total'), rules_local=h_simple('rules_local'),
@@ -324,6 +422,15 @@ def run(ctx: Ctx):
                          dict(traceback=tb_text(e), correspondence='frame closure'), found_input=False)
             else:
                 raise
+    try:
+        instances_part(ctx, data)
+    except Exception as e:  # noqa
+        from ..common import repo_frames, tb_text
+        if repo_frames(e):
+            ctx.fail(f'C04:reapply:exception:{type(e).__name__}', f're-application probes raised {type(e).__name__}: {e}',
+                     dict(traceback=tb_text(e), correspondence='re-application probes'), found_input=False)
+        else:
+            raise
     nrules = 0
     for lg, d in data.items():
         if 'fatal' in d:
